@@ -192,7 +192,7 @@ func C16CsvOld() {
 		decl.DataRowIndex++
 	}
 	failAt := zz.NondetChoice("failAt", len(t.input)+1)
-	r, err := NewReader("t", &zzChunkReader{data: t.input, failAt: failAt, ioErr: zzIOErr}, decl, "")
+	r, err := NewReader("t", &zzChunkReader{data: t.input, failAt: failAt, ioErr: zzPickIOErr()}, decl, "")
 	zz.Assume(err == nil)
 	continuable := 0
 	for i := 0; i < NR+6; i++ {
